@@ -330,7 +330,13 @@ def _res_taint_check(fi):
 
     def guarded(e):
         t = norm(e, 4000)
-        return "isnan(" in t or "nan_to_num(" in t or "fillna(" in t
+        if "isnan(" in t or "fillna(" in t:
+            return True
+        # nan_to_num without an explicit nan= replacement turns a missing voltage magnitude into 0.0 pu - not a usable start value
+        for c in ast.walk(e):
+            if isinstance(c, ast.Call) and (call_name(c) or "").endswith("nan_to_num") and any(k.arg == "nan" for k in c.keywords):
+                return True
+        return False
 
     ever = set()
     sinks = []
@@ -407,8 +413,33 @@ def rule_init_nan(ctx):
                    "result values are NaN-replaced before use" if ok else
                    f"a value read from a result table reaches '{norm(st, 60)}' without a NaN replacement: after a calculation with "
                    "unsupplied buses the next power flow starts from NaN and cannot converge", fi.loc(st))
-    # sweep: no other function on the conversion path reads a result table
-    ctx.require_min(R, 7)
+    # three-phase start: a flat start is 1 pu in the positive sequence and 0 in the zero / negative sequence, so a non-zero
+    # replacement of a missing magnitude must depend on `sequence`
+    fi = ctx.repo.func("pandapower.build_bus:get_voltage_init_vector")
+    blk = [n for n in ast.walk(fi.node) if isinstance(n, ast.If) and "res_bus_3ph" in norm(n.test) and isinstance(n.test, ast.Compare)]
+    if not blk:
+        ctx.fail("get_voltage_init_vector: three-phase branch not found")
+    pm = {c: p_ for p_ in ast.walk(blk[0]) for c in ast.iter_child_nodes(p_)}
+    n3 = 0
+    for st in (x for b_ in blk[0].body for x in ast.walk(b_)):
+        if isinstance(st, ast.Assign) and isinstance(st.targets[0], ast.Subscript) and "isnan(" in norm(st.targets[0].slice):
+            n3 += 1
+            v = st.value
+            nonzero_const = isinstance(v, ast.Constant) and isinstance(v.value, (int, float)) and v.value != 0
+            seq = "sequence" in names_in(v)
+            cur = st
+            while cur in pm and not seq:
+                cur = pm[cur]
+                if isinstance(cur, ast.If) and cur is not blk[0] and "sequence" in names_in(cur.test):
+                    seq = True
+            ok = seq or not nonzero_const
+            ctx.ob(R, f"pandapower.build_bus::get_voltage_init_vector::3ph:{norm(st, 60)}", ok,
+                   "the replacement of a missing three-phase start value depends on the sequence" if ok else
+                   f"`{norm(st, 70)}` puts {norm(v)} into every sequence: the zero and negative sequence start at 1 pu for buses without a "
+                   "previous result and the three-phase power flow diverges or returns NaN", fi.loc(st))
+    if n3 < 1:
+        ctx.fail("get_voltage_init_vector: NaN replacement of the three-phase start vector not found")
+    ctx.require_min(R, 8)
 
 
 def rule_no_memo(ctx):
@@ -506,6 +537,8 @@ def variants(repo):
         V("bus NaN start", bb, in_function("get_voltage_init_vector", replace_once("                    vm_pu[np.isnan(vm_pu)] = 1.\n", "")), "INIT-NAN"),
         V("aux NaN start", bb, in_function("_fill_auxiliary_buses", replace_once("np.where(np.isnan(vm_res), ppc[bus_table][element_bus_idx, vm], vm_res)", "vm_res")), "INIT-NAN"),
         V("switch aux NaN start", br, in_function("_switch_branches", replace_once("                    init_values = np.where(np.isnan(init_values), 1. if col == VM else 0., init_values)\n", "")), "INIT-NAN"),
+        V("switch aux start with nan_to_num (zero magnitude)", br, in_function("_switch_branches", lambda s: s.replace("                    init_values = np.where(np.isnan(init_values), 1. if col == VM else 0., init_values)\n", "                    init_values = np.nan_to_num(init_values)\n", 1)), "INIT-NAN"),
+        V("3ph start replaced per magnitude for every sequence", bb, in_function("get_voltage_init_vector", lambda s: s.replace("                voltage_vector[np.isnan(voltage_vector)] = 1. if sequence == 1 else 0.\n", "", 1).replace("                    return np.abs(voltage_vector)\n", "                    vm_pu = np.abs(voltage_vector)\n                    vm_pu[np.isnan(vm_pu)] = 1.\n                    return vm_pu\n", 1).replace("                    return np.angle(voltage_vector) * 180 / np.pi\n", "                    va_degree = np.angle(voltage_vector) * 180 / np.pi\n                    va_degree[np.isnan(va_degree)] = 0.\n                    return va_degree\n", 1)), "3ph:"),
         V("memoised lookup", bb, replace_once("def create_consecutive_bus_lookup(", "_LOOKUP_CACHE = {}\n\n\ndef create_consecutive_bus_lookup("), None,
           note="an unused module-level dict alone is silent"),
         V("memoised conversion", bb, _memo_variant, "NO-MEMO"),
